@@ -129,9 +129,21 @@ def from_model(mod, rng, texts=None, flagged=False, only_plain=False):
                     if rng.random() < 0.15:
                         continue                  # undocumented member
                     names = [a[1] for a in m['args']]
-                    if len(names) >= 2 and rng.random() < 0.35:
-                        # a decoy overload whose parameter names are a permutation of the real ones, listed first
-                        perm = list(reversed(names))
+                    if len(names) >= 2 and rng.random() < 0.45:
+                        # a decoy overload of the same arity, listed first: its parameter names are a permutation of
+                        # the real ones, or differ from them in one position only (first / middle / last)
+                        form = rng.choice(['reverse', 'rotate', 'first', 'last', 'middle'])
+                        if form == 'reverse':
+                            perm = list(reversed(names))
+                        elif form == 'rotate':
+                            perm = names[1:] + names[:1]
+                        elif form == 'first':
+                            perm = [names[0] + '_alt'] + names[1:]
+                        elif form == 'last':
+                            perm = names[:-1] + [names[-1] + '_alt']
+                        else:
+                            j = rng.randrange(len(names))
+                            perm = names[:j] + [names[j] + '_alt'] + names[j + 1:]
                         if perm != names:
                             methods.append((m['callee'], perm, [False] * len(perm)))
                     methods.append((m['callee'], [a[1] for a in m['args']], [a[2] is not None for a in m['args']]))
